@@ -21,7 +21,7 @@
    Out of scope (stops judging until the next connection): disconnect(), try_event_cancelation() (C23), the events
    between the instant of a connection update and the first packet after it. *)
 From BT Require Import Base.ListX LL.LLModel LL.LLSpec.
-From BT Require gen.GenLL.
+From BT Require gen.GenLL ChanMap.ChanMapSpec.
 Import ListNotations.
 Local Open Scope N_scope.
 
@@ -31,13 +31,10 @@ Definition required (a t : N) : N := widen_floor a t - 1.
 (* sleep clock accuracy field of the CONNECT_IND -> worst case ppm (Core Vol 6 Part B 2.3.3.1) *)
 Definition sca_ppm (field : N) : N := nth (N.to_nat field) [500; 250; 150; 100; 75; 50; 30; 20] 0.
 
-Fixpoint popcount (fuel : nat) (x : N) : N :=
-  match fuel with O => 0 | S f => (x mod 2) + popcount f (x / 2) end.
-Definition used_channels (chmap : list N) : N :=
-  popcount 8 (byte chmap 0) + popcount 8 (byte chmap 1) + popcount 8 (byte chmap 2) + popcount 8 (byte chmap 3)
-  + popcount 5 (byte chmap 4).
+(* the number of used data channels of a channel map: the specification's notion of property C20 (ChanMapSpec.num_used:
+   the bits 0..36 that are set) *)
+Definition used_channels (chmap : list N) : N := N.of_nat (ChanMapSpec.num_used chmap).
 
-(* LLData of a CONNECT_IND; body = InitA AdvA AA CRCInit WinSize WinOffset Interval Latency Timeout ChM Hop/SCA *)
 (* NOTE: the Core's upper bound of the window size is min( 10 ms, interval - 1.25 ms ); the repository's own unit tests
    send connection updates with window size = interval, and the repair keeps accepting that: [<= interval] here. *)
 Definition connect_timing_valid (body : list N) : bool :=
